@@ -150,10 +150,12 @@ class Hamiltonian(SelfAdjointOperator, BasisManaged, EnergyUnitsManaged):
         else:
             self.remove_cutoff_coupling(coupling_cutoff)
             # diagonalize the strong coupling part
-            dd,SS = numpy.linalg.eigh(self.data)
-            self.data = numpy.zeros(self.data.shape,dtype=REAL)
-            for ii in range(0,self.data.shape[0]):
-                self.data[ii,ii] = dd[ii]
+            # (work with the stored values: the `data` property returns
+            # a converted copy in a non-internal units context)
+            dd,SS = numpy.linalg.eigh(self._data)
+            self._data = numpy.zeros(self._data.shape,dtype=REAL)
+            for ii in range(0,self._data.shape[0]):
+                self._data[ii,ii] = dd[ii]
             # transform the remainder of couling correspondingly
             self.JR = numpy.dot(SS.T,numpy.dot(self.JR,SS))
             self.SS = SS
@@ -175,7 +177,8 @@ class Hamiltonian(SelfAdjointOperator, BasisManaged, EnergyUnitsManaged):
         if self._has_remainder_coupling:
             self.JR = numpy.dot(self.SS,numpy.dot(self.JR,self.SS.T))
         if with_remainder and self._has_remainder_coupling:                
-            self.data += self.JR
+            # JR is kept in internal units
+            self._data += self.JR
 
             
     def remove_cutoff_coupling(self, coupling_cutoff):
